@@ -141,12 +141,12 @@ async fn run_reclose(mode: &str, fallible: bool, n: u32) -> Vec<String> {
     let slow = move |v: u32, l: Arc<Mutex<Vec<String>>>| async move { tokio::time::sleep(Duration::from_millis(20)).await; l.lock().unwrap().push(format!("finished {v}")); v };
     let uni = if fallible {
         UniMoveFullSync::<u32, 64, 1, NONE>::new("x").spawn_executors(1, Duration::ZERO,
-            move |stream| { let l = l1.clone(); stream.map(move |v| { let f = slow(v, l.clone()); async move { Ok::<u32, DynErr>(f.await) } }) },
+            move |stream| { let l = l1.clone(); stream.map(move |v| { l.lock().unwrap().push(format!("yielded {v}")); let f = slow(v, l.clone()); async move { Ok::<u32, DynErr>(f.await) } }) },
             |_err| async {},
             move |_e| { let l = l2.clone(); async move { l.lock().unwrap().push("callback".into()); } })
     } else {
         UniMoveFullSync::<u32, 64, 1, NONE>::new("x").spawn_futures_executors(1, Duration::ZERO,
-            move |stream| { let l = l1.clone(); stream.map(move |v| slow(v, l.clone())) },
+            move |stream| { let l = l1.clone(); stream.map(move |v| { l.lock().unwrap().push(format!("yielded {v}")); slow(v, l.clone()) }) },
             move |_e| { let l = l2.clone(); async move { l.lock().unwrap().push("callback".into()); } })
     };
     for k in 0..n { assert!(uni.send(10 + k).is_ok()); log.lock().unwrap().push(format!("accepted {}", 10 + k)); }
@@ -423,6 +423,7 @@ fn main() {
             if cbs != 1 { viol.push(("close_callback_count".into(), format!("mode `{mode}`: the close callback ran {cbs} times"))); }
             viol.dedup_by(|a, b| a.0 == b.0);
             rep.add_run(&trace, n > 1, &format!("reclose/{mode}/f{}", fallible as u8), "Completed");
+            out.write_run(&format!("cfg model=exec futures=1 limit=1 seed={seed} run={i} mode={mode}"), &trace.iter().map(|l| format!("call 0 {l}")).collect::<Vec<_>>());
             for (k, d) in viol {
                 let header = vec![format!("cmd exec sub=reclose runs=1 seedx={seed} rt={}", if multi { "multi" } else { "current" }), format!("violation {k}: {d}")];
                 let p = write_replay(&replay_dir, &format!("{pid}-exec-reclose-seed{seed}-{k}"), &header, &trace);
@@ -448,6 +449,7 @@ fn main() {
             }
         }
         drop(rt);
+        out.finish();
         rep.print();
         return
     }
